@@ -363,6 +363,90 @@ theorem nodup_length_le : ∀ (n : Nat) (l : List Nat), l.Nodup → (∀ x ∈ l
       rw [List.length_erase]; split <;> omega
     omega
 
+/-! ## helpers moved out of Props/C01HandColr.lean -/
+
+theorem v0LayerLoop_length (t : Colr) (pick : Layer → Nat) (s e : Nat) (acc : List Nat) :
+    (v0LayerLoop t pick s e acc).length ≤ acc.length + (e - s) := by
+  have key : ∀ (f : List Nat → Nat → List Nat) (hf : ∀ acc i, (f acc i).length ≤ acc.length + 1)
+      (l : List Nat) (acc : List Nat), (l.foldl f acc).length ≤ acc.length + l.length := by
+    intro f hf l
+    induction l with
+    | nil => intro acc; simp
+    | cons x xs ih =>
+      intro acc
+      simp only [List.foldl_cons, List.length_cons]
+      have h1 := ih (f acc x)
+      have h2 := hf acc x
+      omega
+  unfold v0LayerLoop
+  simp only []
+  refine Nat.le_trans (key _ ?_ _ _) (by simp)
+  intro acc i
+  split
+  · simp
+  · omega
+
+theorem core_clipClosure (c : Ctx) (s e : Nat) (b : Option (Option Nat)) :
+    core (clipClosure c s e b) = core c := by
+  unfold clipClosure
+  cases b with
+  | none => rfl
+  | some b =>
+    simp only []
+    split
+    · cases b with
+      | none => rfl
+      | some base => exact core_addVars c base 4
+    · rfl
+
+theorem core_v1Clips (cl : List (Nat × Nat × Option (Option Nat))) : ∀ c : Ctx, core (v1Clips c cl) = core c := by
+  unfold v1Clips
+  induction cl with
+  | nil => intro c; rfl
+  | cons r rs ih => intro c; simp only [List.foldl_cons]; rw [ih, core_clipClosure]
+
+theorem nodeAt_some_lt (d : List Nat) (p : Nat) (h : (nodeAt d p).isSome = true) : p < d.length := by
+  unfold nodeAt at h
+  split at h
+  · simp at h
+  · rename_i fmt hf
+    unfold paintRead at hf
+    split at hf
+    · cases hf
+    · rename_i f hr
+      unfold readAt checkedAdd at hr
+      split at hr
+      · cases hr
+      · rename_i e he
+        split at he
+        · injection he with he
+          split at hr
+          · omega
+          · cases hr
+        · cases he
+
+theorem checksumLoop_spec : ∀ (d : List Nat) (sum trips : Nat),
+    (checksumLoop d sum trips).2.2 = trips + d.length / 4 ∧
+    (checksumLoop d sum trips).2.1.length = d.length % 4 ∧
+    (sum < 4294967296 → (checksumLoop d sum trips).1 < 4294967296) := by
+  intro d sum trips
+  fun_induction checksumLoop d sum trips with
+  | case1 a b c e rest sum trips ih =>
+    obtain ⟨h1, h2, h3⟩ := ih
+    refine ⟨by simp only [List.length_cons]; omega, by simp only [List.length_cons]; omega, ?_⟩
+    intro _
+    exact h3 (Nat.mod_lt _ (by decide))
+  | case2 rem sum trips hne =>
+    have hl : rem.length < 4 := by
+      match rem, hne with
+      | [], _ => simp
+      | [_], _ => simp
+      | [_, _], _ => simp
+      | [_, _, _], _ => simp
+      | a :: b :: c :: e :: rest, hne => exact absurd rfl (hne a b c e rest)
+    refine ⟨by simp only []; omega, by simp only []; omega, fun h => h⟩
+
+
 /-! ## definitions used by the theorem statements -/
 
 /-- the data is a byte string -/
